@@ -48,6 +48,8 @@ RICH_XSD = '''<xs:schema xmlns:xs="http://www.w3.org/2001/XMLSchema" targetNames
    <xs:unique name="U"><xs:selector xpath="t:sub"/><xs:field xpath="t:n"/></xs:unique></xs:element></xs:sequence></xs:complexType>
   <xs:key name="K"><xs:selector xpath="t:item"/><xs:field xpath="t:n"/></xs:key>
   <xs:keyref name="R" refer="t:K"><xs:selector xpath="t:item/t:sub"/><xs:field xpath="t:n"/></xs:keyref>
+  <xs:unique name="UY"><xs:selector xpath="t:item"/><xs:field xpath="t:year"/></xs:unique>
+  <xs:unique name="UW"><xs:selector xpath="t:item"/><xs:field xpath="t:when"/><xs:field xpath="t:dur"/></xs:unique>
  </xs:element>
 </xs:schema>'''
 
